@@ -72,7 +72,7 @@ def sweep(ctx, pool, configs):
 
 
 def run(ctx):
-    ctx.lean_stage([], ["Verif.Props.C09", "Verif.Props.TokenRules", "Verif.Props.TokenRules2", "Verif.Props.ListRules"])
+    ctx.lean_stage([], ["Verif.Props.C09", "Verif.Props.TokenRules", "Verif.Props.TokenRules2", "Verif.Props.TokenRules2.Md023", "Verif.Props.TokenRules2.Md030", "Verif.Props.TokenRules2.Md037", "Verif.Props.TokenRules2.Md044", "Verif.Props.TokenRules2.Md046", "Verif.Props.TokenRules2.Interfere", "Verif.Props.TokenRules2.InterfereRows", "Verif.Props.ListRules"])
     import blocks
     blocks.tokenrules2(ctx)    # H1 / idempotence for MD030 MD046 MD044, proved counter-examples for MD037 MD023; 14-fixer interference table; md029+md030 same-token conflict
     blocks.listrules(ctx)      # md007_fix_keeps_li_trigger, md007_fix_not_idempotent, md006_fix_not_converged: proved counter-examples to H1 for the list-indentation fixers
